@@ -239,6 +239,91 @@ def decrypt(d, C1, C3, C2):
     return M
 
 
+def encrypt_to_c1(d, C1, msg):
+    """Ciphertext (C3, C2) that the owner of d decrypts to msg for an arbitrary curve point C1 (no nonce needed): what an
+    encryptor whose [k]G happened to be C1 would have sent.  None when the KDF output is all zero."""
+    S = mul(d, C1)
+    x2, y2 = i2b(S[0]), i2b(S[1])
+    t = kdf(x2 + y2, len(msg))
+    if len(msg) and not any(t):
+        return None
+    return sm3(x2 + bytes(msg) + y2), bytes(a ^ b for a, b in zip(msg, t))
+
+
+_SMALL = {}
+
+
+def small_x_point(j):
+    """j-th curve point (in order of x = 0, 1, 2, ...) ; x + p < 2^256 so the coordinate has a second, unreduced 32-byte encoding"""
+    if "x" not in _SMALL:
+        pts, x = [], 0
+        while len(pts) < 64:
+            for odd in (0, 1):
+                q = lift_x(x, odd)
+                if q is not None:
+                    pts.append(q)
+            x += 1
+        _SMALL["x"] = pts
+    return _SMALL["x"][j % 64]
+
+
+def _pmulmod(a, b, f):
+    """product of two polynomials of degree < 3 modulo the monic cubic x^3 + f[2]x^2 + f[1]x + f[0] over Fp (coefficients low first)"""
+    r = [0] * 5
+    for i, ai in enumerate(a):
+        for k, bk in enumerate(b):
+            r[i + k] = (r[i + k] + ai * bk) % P
+    for dg in (4, 3):
+        c = r[dg]
+        if c:
+            r[dg] = 0
+            for t in range(3):
+                r[dg - 3 + t] = (r[dg - 3 + t] - c * f[t]) % P
+    return r[:3]
+
+
+def small_y_point(j):
+    """j-th curve point found with y = 0, 1, 2, ... (root of x^3 + ax + b - y^2 obtained from gcd(x^p - x, f) when it is linear)"""
+    if "y" not in _SMALL:
+        pts, y = [], 0
+        while len(pts) < 24:
+            f = [(B - y * y) % P, A % P, 0]
+            # x^p mod f by square and multiply
+            r, base, e = [1, 0, 0], [0, 1, 0], P
+            while e:
+                if e & 1:
+                    r = _pmulmod(r, base, f)
+                base = _pmulmod(base, base, f)
+                e >>= 1
+            g = [(r[0]) % P, (r[1] - 1) % P, r[2] % P]           # x^p - x mod f
+            # gcd(f, g): one Euclid step suffices to detect a single root: reduce f by g while deg g >= 1
+            a_, b_ = [f[0], f[1], f[2], 1], g
+            def deg(q):
+                d = len(q) - 1
+                while d >= 0 and q[d] % P == 0:
+                    d -= 1
+                return d
+            while deg(b_) >= 0:
+                da, db = deg(a_), deg(b_)
+                if da < db:
+                    a_, b_ = b_, a_
+                    continue
+                inv = pow(b_[db], -1, P)
+                c = a_[da] * inv % P
+                a_ = [(a_[i] - (c * b_[i - (da - db)] if 0 <= i - (da - db) <= db else 0)) % P for i in range(len(a_))]
+                if deg(a_) < db:
+                    a_, b_ = b_, a_
+            if deg(a_) == 1:
+                x = (-a_[0]) * pow(a_[1], -1, P) % P
+                if on_curve((x, y)):
+                    pts.append((x, y))
+                    if y:
+                        pass
+            y += 1
+        _SMALL["y"] = pts
+    return _SMALL["y"][j % 24]
+
+
 def pub_of(d):
     return mul(d, G)
 
